@@ -1009,7 +1009,8 @@ def fn_ext(case, ctx):
 
 NAMES = {"obj": "obj", "mesh": "medit", "geogram_ascii": "geogram", "off": "off", "tet": "tet", "xyz": "xyz", "stl": "stl"}
 SUBCHECKS = []
-for _f in FORMATS:
+# (off last: a shard stops at its first failing sub-check, and off carries the quad/tetrahedron dialect finding)
+for _f in ["obj", "mesh", "geogram_ascii", "tet", "xyz", "stl", "off"]:
     SUBCHECKS.append(SubCheck(NAMES[_f], case_strategy(_f), fn_roundtrip, quick=120 if _f == "stl" else 160, thorough=1500))
     SUBCHECKS.append(SubCheck(NAMES[_f] + "_ext", case_strategy(_f), fn_ext, quick=80 if _f == "stl" else 120, thorough=1000))
 
